@@ -36,7 +36,7 @@ typedef struct { uint32_t ain, aout, cons, prod; uint16_t flush, eos; uint8_t sb
 #define MAXEV 6000
 static cevent ev[MAXEV]; static int nev;
 typedef struct { size_t outpos, inpos; int full; } fpoint;
-static fpoint fps[64]; static int nfps; static long n_flushpts, n_fullpts, n_fullpts_with_match_data;
+static long st_forced_empty; static fpoint fps[64]; static int nfps; static long n_flushpts, n_fullpts, n_fullpts_with_match_data;
 static long st_calls, st_streams, st_stored_fallback, st_multiblock, st_big, st_tmp_resume[32], st_pairs[24][24];
 
 /* ------------------------------------------------------------------ inputs */
@@ -236,11 +236,12 @@ static void run_streaming(long idx, const ccase *c, vrng *r, const char *lvl)
 	gslot *icur = NULL, *ocur = NULL; int irot = 0, orot = 0; uint8_t *ochunk = NULL; size_t ocap = 0;
 	long calls = 0, idle = 0, bound = 20000 + 600 * (long) n;   /* every flush may cost a ~330-byte header drained one byte per call */
 	s->avail_in = 0; s->avail_out = 0; s->next_in = NULL; s->next_out = NULL;
-	int drain_mode = 0, deep_budget = 6, empty_flush_budget = 3; size_t flushed_upto = 0;
+	int drain_mode = 0, deep_budget = 6, empty_flush_budget = 3, force_empty = 0, force_type = 0, forced = 0; size_t flushed_upto = 0;
 	for (;;) {
 		if (++calls > bound) { viol_ev("no-termination", "stream not finished after %ld calls (bound %ld) with all input supplied=%d", calls, bound, given == n); goto out; }
 		/* ---- input */
 		int may_refill = c->discipline == 0 ? 1 : c->discipline == 1 ? !drain_mode : (int) vrn(r, 2);
+		if (force_empty) may_refill = 0;   /* a flush request that brings no input, right after a completed flush */
 		if (s->avail_in == 0 && given < n && may_refill) {
 			size_t want = chunk_size(r, ICH, NICH, c->ikind, calls); if (c->ikind == 0 && (calls & 1)) want = 1 + vrn(r, 700);   /* kind 0: zero-length calls interleaved */
 			if (want > n - given) want = n - given; if (want > CHMAX - 64) want = CHMAX - 64;
@@ -258,6 +259,7 @@ static void run_streaming(long idx, const ccase *c, vrng *r, const char *lvl)
 		/* a flush request with nothing to flush (no input this call, previous block complete) just emits another empty block:
 		 * legal, but with starved output it never ends, so the driver asks for it only occasionally */
 		if (fl != NO_FLUSH && s->avail_in == 0 && fed == flushed_upto) { if (empty_flush_budget > 0 && vrn(r, 8) == 0) empty_flush_budget--; else fl = NO_FLUSH; }
+		if (force_empty) { if (s->avail_in == 0) { fl = force_type; st_forced_empty++; } force_empty = 0; }
 		s->flush = (uint16_t) fl;
 		/* ---- output */
 		if (s->avail_out == 0 || (c->fresh_out && vrn(r, 3) == 0)) {
@@ -297,7 +299,9 @@ static void run_streaming(long idx, const ccase *c, vrng *r, const char *lvl)
 		/* flush point */
 		if ((monitors & M_FLUSHPT) && (fl == SYNC_FLUSH || fl == FULL_FLUSH) && s->avail_in == 0 && s->avail_out > 0 && fed == given && sa != ZSTATE_END && !eos_set) {
 			if (sa != ZSTATE_NEW_HDR) viol_ev("flushpoint:state", "flush call returned with input consumed and output space left but state=%d", sa);
-			else if (fed > 0 || coutlen > hdr_len_of(c->wrapper)) { int already = nfps && fps[nfps - 1].outpos == coutlen; if (!already) { check_flushpoint(c, inbuf, fed, fl == FULL_FLUSH, dict, dictlen, deep_budget > 0 && (deep_budget--, 1)); } }
+			else if (fed > 0 || coutlen > hdr_len_of(c->wrapper)) { int already = nfps && fps[nfps - 1].outpos == coutlen; if (!already) { check_flushpoint(c, inbuf, fed, fl == FULL_FLUSH, dict, dictlen, deep_budget > 0 && (deep_budget--, 1)); }
+				else if (fl == FULL_FLUSH && !fps[nfps - 1].full) { fps[nfps - 1].full = 1; n_fullpts++; }   /* a FULL_FLUSH call completed here without adding output: the point is a full-flush point all the same */
+				if (given < n && forced < 3 && c->fkind && vrn(r, 5) == 0) { force_empty = 1; forced++; force_type = vrn(r, 4) ? (fl == SYNC_FLUSH ? FULL_FLUSH : SYNC_FLUSH) : fl; } }
 		}
 		if (sa == ZSTATE_END) break;
 	}
@@ -364,7 +368,7 @@ static void run_oneshot(long idx, const ccase *c, vrng *r, const char *lvl)
 		if (v_nsamples < 4 && n > 300) v_sample("%s -> COMP_OK, %zu bytes (bound %zu), decodes to the input by reference and zlib", v_case, coutlen, bound);
 	} else if (ret == STATELESS_OVERFLOW) {
 		if ((monitors & M_BOUND) && aout >= bound) { viol_ev("overflow-despite-bound", "STATELESS_OVERFLOW with avail_out=%zu >= bound %zu", aout, bound); goto out; }
-		if (!(monitors & M_BOUND) ) { viol_ev("overflow-with-generous-output", "STATELESS_OVERFLOW with avail_out=%zu (bound %zu)", aout, bound); goto out; }
+		if (!(monitors & M_BOUND) && aout >= bound) { viol_ev("overflow-with-generous-output", "STATELESS_OVERFLOW with avail_out=%zu (bound %zu)", aout, bound); goto out; }
 		v_count("oneshot", "overflow_reported", 1);
 	} else { viol_ev("deflate-error-return", "isal_deflate_stateless returned %d with valid parameters", ret); goto out; }
 out:
@@ -497,6 +501,11 @@ static void gen_case(long idx, vrng *r, ccase *c, const char *prop)
 		if ((long) a < 0) a = 0;
 		c->os_avail_out = a + 1; c->os_flush = vrn(r, 3) ? NO_FLUSH : FULL_FLUSH; c->os_eos = 1;
 	}
+	if (!strcmp(prop, "C11") && c->oneshot && !adler_sat && vrn(r, 3) == 0) {   /* output space around the stored-block bound of the wrapper: success must still mean a complete trailer */
+		if (vrn(r, 3)) { c->infam = 9; c->n = gen_input(r, inbuf, c->infam, vrn(r, 2) ? 3000 : cap, c->hist_bits); }
+		size_t b = onebound(c->n, c->wrapper); long a = (long) b + vrr(r, -9, 4); if (a < 0) a = 0;
+		c->os_avail_out = (size_t) a + 1; c->os_flush = NO_FLUSH; c->os_eos = 1;
+	}
 	if (!strcmp(prop, "C17") && vrn(r, 2)) {   /* dictionary */
 		c->dictmode = 1 + vrn(r, 2); c->dictlen = vrn(r, 3) == 0 ? 1 + vrn(r, 300) : 1 + vrn(r, 70000); c->oneshot = 0; c->wrapper = vrn(r, 3) ? IGZIP_DEFLATE : (int) vrn(r, 5);
 		vr_fill(r, dictbuf, c->dictlen); if (vrn(r, 2)) markov(r, dictbuf, c->dictlen);
@@ -561,7 +570,7 @@ int main(int argc, char **argv)
 		}
 	}
 	v_stat("evaluations", st_streams); v_stat("library_calls", st_calls); v_stat("stored_fallback_streams", st_stored_fallback); v_stat("multiblock_streams", st_multiblock); v_stat("inputs_over_64k", st_big);
-	v_stat("flush_points_checked", n_flushpts); v_stat("full_flush_points", n_fullpts); v_stat("full_flush_suffixes_1k", n_fullpts_with_match_data);
+	v_stat("flush_points_checked", n_flushpts); v_stat("flush_calls_without_input_after_a_completed_flush", st_forced_empty); v_stat("full_flush_points", n_fullpts); v_stat("full_flush_suffixes_1k", n_fullpts_with_match_data);
 	for (int a = 0; a < 24; a++) for (int b = 0; b < 24; b++) if (st_pairs[a][b]) { char e[32]; snprintf(e, sizeof e, "%d>%d", a, b); v_count("state_transitions", e, st_pairs[a][b]); }
 	for (int a = 0; a < 32; a++) if (st_tmp_resume[a]) { char e[32]; snprintf(e, sizeof e, "resume_in_state_%d", a); v_count("tmp_state_resume_points", e, st_tmp_resume[a]); }
 	return v_finish();
